@@ -112,6 +112,10 @@ def extractMethodSigValue(op: TealOp) -> bytes:
     return methodSelector
 
 
+# `intc i` / `bytec i` address a block entry with a one-byte immediate
+MAX_BLOCK_SIZE = 256
+
+
 def createConstantBlocks(ops: List[TealComponent]) -> List[TealComponent]:
     """Convert TEAL code from using pseudo-ops for constants to using assembled constant blocks.
 
@@ -159,13 +163,13 @@ def createConstantBlocks(ops: List[TealComponent]) -> List[TealComponent]:
         val
         for i, val in enumerate(sortedInts)
         if intFreqs[val] > 1 and (i < 4 or isinstance(val, str) or val >= 2**7)
-    ]
+    ][:MAX_BLOCK_SIZE]
 
     byteBlock = [
         ("0x" + b.hex()) if type(b) is bytes else cast(str, b)
         for b in sortedBytes
         if byteFreqs[b] > 1
-    ]
+    ][:MAX_BLOCK_SIZE]
 
     if len(intBlock) != 0:
         assembled.append(TealOp(None, Op.intcblock, *intBlock))
@@ -214,7 +218,10 @@ def createConstantBlocks(ops: List[TealComponent]) -> List[TealComponent]:
                         "Expect a byte-like constant opcode, get {}".format(op)
                     )
 
-                if byteFreqs[byteValue] == 1:
+                if (
+                    byteFreqs[byteValue] == 1
+                    or sortedBytes.index(byteValue) >= MAX_BLOCK_SIZE
+                ):
                     encodedValue = (
                         ("0x" + byteValue.hex())
                         if type(byteValue) is bytes
